@@ -120,17 +120,24 @@ def entry_has_vec(e):
 _SUB_PACK = {
     ("ObjectUpdate", "ObjectData", "ObjectData"): lambda d: TaggedUnion(60, d),       # full-precision form
     ("ImprovedTerseObjectUpdate", "ObjectData", "Data"): lambda d: d,
+    # unpacks to an object, not to named subfields: nothing selectable
+    ("ObjectUpdate", "ObjectData", "TextureEntry"): lambda d: _default_te(),
 }
+
+
+def _default_te():
+    from hippolyzer.lib.base.templates import TextureEntryCollection
+    return TextureEntryCollection()
 
 
 def _block_kwargs(name, b):
     kw = {}
     for v in b["vars"]:
-        if v.get("subs"):
+        if v.get("subs") or v["val"]["ty"] == "packed":
             pack = _SUB_PACK.get((name, b["blk"], v["var"]))
             if pack is None:
                 raise common.MachineryError("no subfield packer for %s.%s.%s" % (name, b["blk"], v["var"]))
-            kw[v["var"] + "_"] = pack({"".join(chr(c) for c in sf["sub"]): pyval(sf["val"]) for sf in v["subs"]})
+            kw[v["var"] + "_"] = pack({"".join(chr(c) for c in sf["sub"]): pyval(sf["val"]) for sf in v.get("subs", [])})
         else:
             kw[v["var"]] = pyval(v["val"])
     return kw
@@ -674,7 +681,7 @@ def _act_text(a):
     return "clear()"
 
 
-def _machine(chk: Check, agg: Agg, W, max_log, depth, use_ent, use_flt, label, with_pairs=True):
+def _machine(chk: Check, agg: Agg, W, max_log, depth, use_ent, use_flt, label, pairs_mode=None):
     global _G, _W, _ENTS, _FLTS
     consts = _consts(W=W, MaxLog=max_log, Depth=depth, UseEnt=use_ent, UseFlt=use_flt)
     # the export run enumerates the same graph and checks the invariants on it
@@ -693,9 +700,10 @@ def _machine(chk: Check, agg: Agg, W, max_log, depth, use_ent, use_flt, label, w
     g = Graph(recs)
     _G, _W = g, W
     # + every (self-loop, following edge) pair: a paused log call, a refused filter text ... must not disturb hidden state
-    pairs = g.selfloop_pairs() if with_pairs else []
-    if chk.tier == "quick":
-        # one idle log call per state is enough in the quick tier (the paused log calls of a state differ only in the dropped entry)
+    pairs_mode = pairs_mode or ("reduced" if chk.tier == "quick" else "all")
+    pairs = g.selfloop_pairs() if pairs_mode != "none" else []
+    if pairs_mode == "reduced":
+        # one idle log call per state (the paused log calls of a state differ only in the dropped entry)
         first_log = {}
         for i, _ in pairs:
             le = g.edges[i]
@@ -1273,9 +1281,9 @@ def run(chk: Check):
         _machine(chk, agg, 1, 3, 6, "{1,2,4}", "{1,2,4,5,7}", "W1")      # (the ill-formed filter text is in this one)
     else:
         _machine(chk, agg, 2, 4, 9, "{1,2,3,4}", "{1,2,3,4,5,6,7}", "W2")
-        _machine(chk, agg, 1, 4, 7, "{1,2,3,4}", "{1,2,3,4,5,6,7}", "W1")
-        _machine(chk, agg, 3, 5, 7, "{1,2,4}", "{1,2,4,5,6}", "W3")
-        _machine(chk, agg, 2, 5, 7, "{1,2,3,4}", "{1,2,3,4,5,6,7}", "W2 five entries", with_pairs=False)
+        _machine(chk, agg, 1, 4, 7, "{1,2,3,4}", "{1,2,3,4,5,6,7}", "W1", pairs_mode="reduced")
+        _machine(chk, agg, 3, 5, 7, "{1,2,4}", "{1,2,4,5,6}", "W3", pairs_mode="reduced")
+        _machine(chk, agg, 2, 5, 6, "{1,2,3,4}", "{1,2,3,4,5,6,7}", "W2 five entries", pairs_mode="none")
     lap("machine")
     # ---- part 3: code -> spec
     n = 1 if quick else 8
